@@ -19,7 +19,8 @@ def parse_data(content, type_code):
 
     raw = np.frombuffer(content, dtype)
     if type_code == "C*8":
-        return raw["real"] + 1j * raw["imag"]
+        # reinterpret the (real, imag) float32 pairs: arithmetic would not be bit-exact for -0.0 / inf / nan
+        return raw.view(">c8")
     return raw
 
 
